@@ -6,9 +6,9 @@ TRACE = "Batch_Trace.tla"
 TRACE_CFG = "Batch_Trace.cfg"
 
 
-def validate(ctx, programs, source, tamper=True, chunk=1500, isolated=False):
+def validate(ctx, programs, source, tamper=True, chunk=1500, isolated=False, expect_clean=True):
     ctx.replay_driver = "batch"
-    return ctx.validate(TRACE, TRACE_CFG, programs, B.run_program, source=source, expect_clean=True,
+    return ctx.validate(TRACE, TRACE_CFG, programs, B.run_program, source=source, expect_clean=expect_clean,
                         tamper=B.tamper if tamper else None, chunk=chunk, min_events=1,
                         isolated=("batch", "run_program", 120) if isolated else None)
 
